@@ -301,8 +301,6 @@ def run(ctx):
     from ..core.template import same as same_t
     pos = any(same_t(t, br[0].test) is not None for t in ident)
     sizes = same_t(f'{FC}.size == {FR}.size', br[0].test) is not None
-    ctx.anchor(pos or sizes, 'test of the pass-through branch '
-               f'(`{ast.unparse(br[0].test)}`)')
     same, diff = br[0].body, br[0].orelse
     ctx.check('C20.F3.passthrough', 'interpolate: verbatim fill only for '
               'identical frequency vectors', pos,
